@@ -41,15 +41,17 @@ func init() {
 	kit.Register(&kit.Spec{
 		ID: "C03",
 		Rule: "A: program codes (lengths 0..80, every classifier boundary byte at first/second/last/second-last position, standard/schnorr/multisig/cross-chain scripts with 1-byte, 2-byte and opcode m/n encodings, truncated and extended) x parameters (0..80, k*65, 63/64/65) fed to the classifiers, script parsers, RunPrograms and the multisig verifiers; directed hostile public keys (x>=P decompressible / not, x=P, x=2^256-1, x=0, off-curve x<P, both parities, prefix bytes 00/04/05/06/07/ff) in Schnorr, standard, multisig and cross-chain scripts with in-range 64/65-byte signatures through RunPrograms and the direct verifiers, and on the live node by spending UTXOs funded at such Schnorr-script addresses; aux-pow structures (aux branch 0..40, parent coinbase with 0..2 inputs, script with/without/truncated merged-mining commitment, size as the node computes it) re-decoded from their wire bytes and fed to AuxPow.Check / CheckProofOfWork; GetExpectedIndex for every height 0..40. " +
-			"B: on a live regnet node, transactions of every type x payload version 0..5 with reflect-filled payloads, spending real UTXOs held at standard / schnorr / multisig / cross-chain / crafted-script addresses, re-decoded from their wire bytes, pushed through CheckTransactionSanity then (only if it passed, as the node does) CheckTransactionContext, and through AppendToTxPool; blocks with hostile aux-pow, 0..4 coinbase outputs, arbitrary header height, hostile transactions, re-decoded from wire bytes, through CheckBlockSanity, ProcessBlock and BlockPool.AddDposBlock (the p2p entry); in four activation-height regimes. " +
+			"B: on a live regnet node, transactions of every type x payload version 0..5 with reflect-filled payloads, spending real UTXOs held at standard / schnorr / multisig / cross-chain / crafted-script addresses, re-decoded from their wire bytes, pushed through CheckTransactionSanity then (only if it passed, as the node does) CheckTransactionContext, and through AppendToTxPool; blocks with hostile aux-pow, 0..4 coinbase outputs, arbitrary header height, hostile transactions, re-decoded from wire bytes, through CheckBlockSanity, ProcessBlock and BlockPool.AddDposBlock (the p2p entry); in four activation-height regimes. C (2 extra shards): on a node bootstrapped into the kit's compressed dposv2-era past DPoSV2ActiveHeight+1 (one shard in DPOS consensus, one after a real RevertToPOW block), per round the honest next block's coinbase is replaced by variants with 0..5 outputs whose present outputs carry the exact expected value and address, each value off by one, addresses replaced / exchanged / of the other consensus mode, random vectors; every variant block is sealed, confirmed by the current arbiters, re-decoded and delivered through CheckBlockSanity->CheckBlockContext, ProcessBlock and BlockPool.AddDposBlock. " +
 			"distinct = distinct (entry point, input bytes); non-trivial = the input decoded and the call got past the entry point's first length/emptiness gate (code non-empty; aux-pow parent root consistent; transaction passed sanity or reached the type specific check)",
-		Shards:           func(tier string) int { return 8 },
+		Shards:           func(tier string) int { return c03BaseShards + 2 }, // 8 general shards + 2 DPoS v2 era coinbase shards (DPOS / POW consensus)
 		Run:              runC03,
 		FatalIsViolation: true,
 		FatalSig:         c03FatalSig,
 		MemLimitMB:       6144,
 		Require: []string{"A_classifier_calls", "A_runprograms_calls", "A_auxpow_check_calls", "A_expected_index_calls", "A_pow_calls",
 			"A_hostile_key_runprograms_calls", "A_hostile_noncanonical_decompressible_keys", "A_hostile_key_rejected", "B_hostile_key_txs_sanity_pass",
+			"coinbase_variants_dposv2_era", "coinbase_two_outputs_exact_prefix_cases", "C_two_outputs_exact_reached_context", "C_honest_blocks_accepted",
+			"C_dpos_consensus_shards", "C_pow_consensus_shards", "C_variant_context_pass",
 			"A_honest_std_accept", "A_honest_multisig_accept", "A_honest_auxpow_accept", "A_multisig_classified_true", "A_auxpow_reached_index",
 			"B_tx_decoded", "B_tx_sanity_pass", "B_tx_context_calls", "B_pool_calls", "B_honest_pool_accept", "B_block_sanity_calls",
 			"B_processblock_calls", "B_adddposblock_calls", "B_honest_block_accept", "B_tx_types_sanity_pass", "B_special_context_reached"},
@@ -247,6 +249,10 @@ func runC03(c *kit.Ctx) {
 	x := &c03Run{c: c}
 	x.g = newC03Gen(c.Rand("c03-gen"))
 	x.f = &c03Filler{g: x.g}
+	if c.Shard >= c03BaseShards {
+		x.partC()
+		return
+	}
 	x.partA()
 	x.partB()
 }
